@@ -811,7 +811,14 @@ def r084(P, u, rep):
         for ctx, out in paths:
             if out[0] != 'ret':
                 continue
-            al = ctx.facts.get(('sym', 'AL'))
+            # what the path knows about the _Alignas value: True = present (non-zero), False = absent, None = never looked at
+            kAL = ('sym', 'AL')
+            bAL = ctx.bounds.get(kAL)
+            al = None
+            if bAL and bAL[0] == bAL[1] == 0:
+                al = False
+            elif 0 in ctx.neq.get(kAL, ()) or (bAL and (bAL[0] > 0 or bAL[1] < 0)):
+                al = True
             objs = []
             for e in ctx.events:
                 if e[0] == 'fstore' and e[2] == 'ty' and isinstance(e[1], Obj) and e[1].tname == tname and not e[1].lazy and e[1] not in objs:
